@@ -24,6 +24,20 @@ func runBounds(c *Ctx, rule string, fns []*ssa.Function) int {
 	// proves its argument >= 0.  Two rounds, so that a helper's helper sees
 	// the facts established for its caller.
 	res := NewResolver(c.W)
+	// a caller outside the analysed set only has to prove what it passes (Result.Scan hands scan the position 0)
+	outside := map[*ssa.Function]*bprover{}
+	proverOf := func(f *ssa.Function) *bprover {
+		if p := provers[f]; p != nil {
+			return p
+		}
+		if f == nil || f.Blocks == nil || !isRepoFunc(f) {
+			return nil
+		}
+		if outside[f] == nil {
+			outside[f] = newBProver(c.W, f)
+		}
+		return outside[f]
+	}
 	for round := 0; round < 2; round++ {
 		for _, fn := range fns {
 			p := provers[fn]
@@ -35,9 +49,23 @@ func runBounds(c *Ctx, rule string, fns []*ssa.Function) int {
 				if len(callers) == 0 {
 					continue
 				}
+				// a recursive function: the pre-condition is assumed at entry while it is proven at the recursive
+				// call sites (induction on the depth of the recursion; the outer callers are the base case)
+				key := "param>=0:" + par.Name()
+				selfRec := false
+				for _, cs := range callers {
+					if cs.Parent() == fn {
+						selfRec = true
+					}
+				}
+				nGlobal := len(p.global)
+				tentative := selfRec && !p.axioms[key]
+				if tentative {
+					p.global = append(p.global, fact{atomLin(p.id(par)), "induction hypothesis: " + par.Name() + " >= 0 at entry"})
+				}
 				all := true
 				for _, cs := range callers {
-					pc := provers[cs.Parent()]
+					pc := proverOf(cs.Parent())
 					args := cs.Common().Args
 					if pc == nil || cs.Common().IsInvoke() || pi >= len(args) {
 						all = false
@@ -45,11 +73,16 @@ func runBounds(c *Ctx, rule string, fns []*ssa.Function) int {
 					}
 					arg := args[pi]
 					if !pc.proveAt(func(at *ssa.BasicBlock) lin { return pc.val(arg, at) }, cs.Block()) {
+						if debugOn() {
+							fmt.Printf("DEBUG pre %s: %s >= 0 not proven at %s\n", fnName(fn), par.Name(), c.W.Pos(cs.Pos()))
+						}
 						all = false
 						break
 					}
 				}
-				key := "param>=0:" + par.Name()
+				if tentative {
+					p.global = p.global[:nGlobal]
+				}
 				if all && !p.axioms[key] {
 					p.axioms[key] = true
 					p.global = append(p.global, fact{atomLin(p.id(par)), "every call site passes a non-negative " + par.Name()})
@@ -61,7 +94,7 @@ func runBounds(c *Ctx, rule string, fns []*ssa.Function) int {
 					}
 					allLe := true
 					for _, cs := range callers {
-						pc := provers[cs.Parent()]
+						pc := proverOf(cs.Parent())
 						args := cs.Common().Args
 						if pc == nil || cs.Common().IsInvoke() || pi >= len(args) || si >= len(args) {
 							allLe = false
